@@ -385,7 +385,9 @@ func eval[C any](s *Session, c *Check[C], cs C, count bool, enumerated bool) eva
 	}
 	var wd *time.Timer
 	if c.Journal {
-		wd = time.AfterFunc(HangAfter, func() {
+		// inside a shard the machine is shared with the other shards (and whatever else runs): four times the
+		// budget of a case that runs alone; the driver then replays the journalled case alone with HangAfter
+		wd = time.AfterFunc(4*HangAfter, func() {
 			fmt.Printf("HANG check=%s\n", c.Name)
 			os.Exit(97)
 		})
